@@ -374,3 +374,53 @@ def norm_items(v):
             return ("item", norm_items(v[1]), v[2][1])
         return tuple(norm_items(y) for y in v)
     return v
+
+
+def peval(prog, fi, v, depth=0):
+    """Partial evaluation of a canonical value: comparisons of constants, lookups in literal or class-level tables with a constant
+    key, items of literal tuples, concatenation of constant strings, conditionals with a constant test.  Class-level attributes reached
+    through cls / self are replaced by the normal form of their defining expression."""
+    if not isinstance(v, tuple) or not v or depth > 40:
+        return v
+    v = tuple(peval(prog, fi, y, depth + 1) for y in v)
+    tag = v[0]
+    if tag == "cmp" and len(v) == 4 and isinstance(v[2], tuple) and isinstance(v[3], tuple) and v[2] and v[3] and v[2][0] == "const" and v[3][0] == "const":
+        a, b = v[2][1], v[3][1]
+        try:
+            r = {"==": a == b, "!=": a != b, "is": a is b or a == b, "is not": not (a is b or a == b)}.get(v[1])
+        except Exception:
+            r = None
+        if r is not None:
+            return ("const", bool(r))
+    if fi is not None and fi.cls is not None:
+        name = None
+        if tag == "attr" and len(v) == 3 and v[1] in (("param", "cls"), ("name", "cls"), ("param", "self"), ("name", "self")):
+            name = v[2]
+        elif tag == "self" and len(v) == 2:
+            name = v[1]
+        if name is not None:
+            for k in prog.mro(fi.cls):
+                if name in k.attrs:
+                    f0 = next(iter(k.methods.values()), None)
+                    if f0 is not None:
+                        return peval(prog, f0, Sym(prog, f0, k, inline=False).expr(k.attrs[name], {}), depth + 1)
+    if tag in ("sub", "item") and len(v) == 3 and isinstance(v[1], tuple) and v[1]:
+        idx = v[2]
+        key = idx if isinstance(idx, tuple) else ("const", idx)
+        if v[1][0] == "dict":
+            for kk, val in v[1][1]:
+                if kk == key:
+                    return val
+        if v[1][0] in ("tuple", "list") and key[0] == "const" and isinstance(key[1], int) and not isinstance(key[1], bool) and -len(v[1][1]) <= key[1] < len(v[1][1]):
+            return v[1][1][key[1]]
+        if v[1][0] == "const" and isinstance(v[1][1], (tuple, list, dict, str, bytes)) and key[0] == "const":
+            try:
+                r = v[1][1][key[1]]
+                return ("const", r)
+            except Exception:
+                pass
+    if tag == "binop" and v[1] == "+" and len(v[2]) == 2 and all(isinstance(t, tuple) and t and t[0] == "const" and isinstance(t[1], str) for t in v[2]):
+        return ("const", v[2][0][1] + v[2][1][1])
+    if tag == "phi" and isinstance(v[1], tuple) and v[1] and v[1][0] == "const":
+        return v[2] if v[1][1] else v[3]
+    return v
